@@ -236,6 +236,7 @@ func runC16(c *Ctx) {
 	c.Rule("K2 colour-model agreement: S6 class evaluation of DecodeConfig and of the frame decoder over IsLossless x AlphaData{nil,empty,non-empty}: the models DecodeConfig may report are exactly the ColorModel()s of the types the decoder may return, one per class")
 	c.Rule("K4 defaults: the loop count both container parsers report when no ANIM chunk was read is the same constant")
 	c.Rule("K6 limit-is-error: in the methods of container.Parser and mux.Demuxer, a comparison of the number of parsed records (len of a receiver field) with a constant limit leads, when the limit is reached, directly to an error return - never to a break/continue that silently truncates this view of the file")
+	c.Rule("K7 canvas size: symbolic execution (S7) of the container parser's VP8X chunk walk: in every input class in which an ANMF chunk is walked, the overall Width/Height that GetFeatures and DecodeConfig report (the canvas, for an animation) are not assigned")
 	c.Rule("K5 registration: init calls image.RegisterFormat with a magic every RIFF....WEBP header matches and with this package's Decode and DecodeConfig")
 	c.NotCovered("width/height agreement between bitstream header parsers and the decoders (value-level); the VP8L alpha bit and VP8X alpha flag reflecting the decoded pixels; frame-count agreement of the parsers on long animations (limits)")
 	for _, cf := range c.configsFor() {
@@ -248,6 +249,22 @@ func runC16(c *Ctx) {
 		c16Register(c, p)
 		c16LoopDefault(c, p)
 		c16Limits(c, p)
+		// K7: S7 execution of the container parser's chunk walk
+		fns := loopFuncs(p, "internal/container")
+		for _, fn := range fns {
+			if fn.Name() != "parseVP8XChunks" {
+				continue
+			}
+			opq := append([]string{}, headerObservers...)
+			for _, o := range fns {
+				if o != fn {
+					opq = append(opq, o.Name())
+				}
+			}
+			before := c.Count("K7-canvas-size")
+			checkReader(c, p, readerSpec{rel: "internal/container", opaque: opq, fn: fn, onlyK7: true}, 300000)
+			c.Floor("K7-canvas-size", c.Count("K7-canvas-size")-before, 1)
+		}
 	}
 }
 
